@@ -113,7 +113,7 @@ def run(ctx):
                     "(x /V,/R pairings incl. V1/R3 and V2/R2) replayed into the real hasNeededPermissions, the function the read path calls; non-trivial = distinct (mode, "
                     "revision, value of the needed bits) combinations of classified modes. End to end: one record = one real read of a "
                     "really encrypted document for one command mode and credential pair, or one real file operation; validated by TLC" % len(c["rows"]),
-               exhaustive=True, matrix_rows=ss["rows"], matrix_denied=ss["denied"], in_package_binding=shim_bound,
+               exhaustive=True, matrix_rows=ss["rows"], matrix_denied=ss["denied"], in_package_binding=shim_bound, e2e_password_variants_refused_at_encryption=secfamily.total(summs, "skipped_variants"),
                e2e_documents=ndocs, e2e_reads=secfamily.total(summs, "reads"), e2e_file_operations=secfamily.total(summs, "apis"),
                e2e_permission_denied=denied, e2e_records_validated=validated)
         if denied == 0 or (shim_bound and ss["denied"] == 0):
